@@ -72,9 +72,15 @@ where
         i.iter().for_each(|s: &T| {
             v.extend(&s.serialize());
         });
+        #[cfg(rustradio_verif)]
+        crate::verif::crash_point("sink_before_write");
         self.f.write_all(&v)?;
         self.f.flush()?;
+        #[cfg(rustradio_verif)]
+        crate::verif::crash_point("sink_after_flush");
         i.consume(n);
+        #[cfg(rustradio_verif)]
+        crate::verif::crash_point("sink_after_consume");
         Ok(BlockRet::Again)
     }
 }
@@ -127,8 +133,12 @@ where
             //let s2 = format!["{:?}", s].into();
             let mut v = s.serialize();
             v.push(10); // Newline.
+            #[cfg(rustradio_verif)]
+            crate::verif::crash_point("ncsink_before_write");
             self.f.write_all(&v)?;
             self.f.flush()?;
+            #[cfg(rustradio_verif)]
+            crate::verif::crash_point("ncsink_after_flush");
             Ok(BlockRet::Again)
         } else {
             Ok(BlockRet::WaitForStream(&self.src, 1))
